@@ -139,7 +139,11 @@ func (w *world) apply(op Op) {
 			prev = p.hash
 			round = p.round + 1
 		}
-		b := &mblock{hash: fmt.Sprintf("b%d", len(w.m.blocks)), prev: prev, round: round, pre: map[string]entry{}}
+		hash := fmt.Sprintf("b%d", len(w.m.blocks))
+		if w.s.Names == "ambig" {
+			hash = strings.Repeat("q", len(w.m.blocks)%4) + fmt.Sprintf("z%d", len(w.m.blocks)/4)
+		}
+		b := &mblock{hash: hash, prev: prev, round: round, pre: map[string]entry{}}
 		b.bc = statecache.NewBlockCache(w.sc, statecache.Block{Round: round, Hash: b.hash, PrevHash: prev})
 		w.m.blocks = append(w.m.blocks, b)
 		w.m.byHash[b.hash] = b
